@@ -1,1 +1,136 @@
-/-! Property theorems for C05 — placeholder until the property's model is built. -/
+import FcpptProofs.C05.NoDrop
+/-!
+# C05 — property theorems: generic operations conserve values
+
+Registry (`Op.all`, 66 operations, programs in FcpptModel/Model/C05.lean):
+algorithm::map, fold, fold_break, map_concat, map_optional, reverse; container::join (2, 3), pop_back, pop_front, make_move_range
+(driven by algorithm::map), get_or_insert, get_or_insert_with_result, make; move_clear; move_if, move_if_rvalue;
+optional::map, bind, from, alternative, filter, to_container, join, combine, apply, sequence, cat;
+either::map, map_failure, bind, match, success_opt, failure_opt, from_optional, join, apply, sequence, first_success;
+variant::match, apply (1, 2), to_optional; tuple::map, push_back, concat; array::map, push_back, join (2, 3), from_range;
+record::map, permute, multiply_disjoint; grid::map, apply, resize; tree::object(T), push_back(T), push_back(object&&), release,
+tree::map; options::flag / option constructors; parse::sequence / repetition results.
+
+Every theorem is stated for **every** registered operation `o` and **every** well-formed input `inp` (`wf o inp`: the value
+categories the operation can be instantiated with, pairwise distinct identities below 100, answer tables of the right length) —
+containers of every size.  `outcome o inp` is the observation (FcpptModel/Spec/C05.lean) of running the operation's transfer
+program.  Only theorems and examples live in this file; lemmas are in `FcpptProofs/C05/`.
+
+PARTIAL (named in DESIGN.md §5 C05, notes/C05.md): that a C++ expression *is* a move, a copy or a reference hand-over is a fact of
+the language (value categories, temporaries, overload resolution) that the model does not derive — the per-element annotation of
+every program is justified by the differential correspondence on the enumerated shapes; these theorems extend it to all sizes.
+-/
+namespace Fcppt.C05
+
+/-- **No element of an argument passed as an rvalue is ever copied.** -/
+theorem rvalue_no_copy (o : Op) (inp : Input) (h : wf o inp = true) : (outcome o inp).NoCopyOfRvalue :=
+  safe_noCopyOfRvalue (wf_ids h) (prog_safe o inp h)
+
+/-- **Every element is move-constructed out of its argument at most once.** -/
+theorem rvalue_moved_at_most_once (o : Op) (inp : Input) (h : wf o inp = true) : (outcome o inp).MovedAtMostOnce :=
+  safe_movedAtMostOnce (wf_ids h) (prog_safe o inp h)
+
+/-- **No object is read, copied or moved after it was moved from.** -/
+theorem no_read_after_move (o : Op) (inp : Input) (h : wf o inp = true) : (outcome o inp).NoReadAfterMove :=
+  safe_noReadAfterMove (prog_safe o inp h)
+
+/-- **An argument passed as `T&` or `T const&` is left exactly as it was** (same identities, same order, all live). -/
+theorem lvalue_unchanged (o : Op) (inp : Input) (h : wf o inp = true) : (outcome o inp).LvalueUnchanged :=
+  safe_lvalueUnchanged (prog_safe o inp h)
+
+/-- **Every element is live at most once afterwards** (arguments and result together), plus once per copy —
+and copies are copies of lvalue arguments (`rvalue_no_copy`). -/
+theorem result_at_most_once (o : Op) (inp : Input) (h : wf o inp = true) : (outcome o inp).AtMostOnce :=
+  safe_atMostOnce (wf_ids h) (prog_safe o inp h)
+
+/-- **No element is duplicated or silently lost**: live occurrences + destroyed live values = 1 + copies, for every element. -/
+theorem conserved (o : Op) (inp : Input) (h : wf o inp = true) : (outcome o inp).Conserved :=
+  safe_conserved (wf_ids h) (prog_safe o inp h)
+
+/-- **Move-only element types are accepted**: when every argument is an rvalue (or an in/out parameter) nothing is copied. -/
+theorem accepts_move_only (o : Op) (inp : Input) (h : wf o inp = true) (hall : (outcome o inp).AllRvalue) :
+    (outcome o inp).cp = [] :=
+  safe_acceptsMoveOnly (prog_safe o inp h) hall
+
+/-- **Exactly once where the operation is documented to keep all elements** (`keeps`: map with an identity-preserving function,
+join, reverse, push_back, concat, permute, multiply_disjoint, array join / from_range, constructors, `sequence` on success, the
+state of a fold, …): every element of an argument passed as an rvalue is live in the result exactly once afterwards and
+nowhere else — neither duplicated nor lost. -/
+theorem rvalue_exactly_once_in_result (o : Op) (inp : Input) (a : Nat) (h : wf o inp = true) (hk : keeps o inp a = true)
+    (ha : inp.cat a = some .rv) : (outcome o inp).ExactlyOnceInResult a :=
+  safe_rvalue_exactly_once (wf_ids h) (prog_safe o inp h) (prog_allToRes o inp a hk) a ha (prog_covers o inp a h hk ha)
+
+/-- **No element is destroyed** by an operation that is not one of the four that drop values by design (`drops`: the second failure
+of `either::apply`, the failures before a `first_success`, a half-parsed sequence, the emptied `move_range`): with `conserved`, every
+element is then live exactly `1 + copies` times in arguments and result together — e.g. `pop_back`'s element is in the result and
+the others stay in the container; `get_or_insert` leaves all elements where they were. -/
+theorem nothing_lost (o : Op) (inp : Input) (h : wf o inp = true) (hd : drops o = false) : (outcome o inp).lost = [] :=
+  safe_nothing_lost (prog_safe o inp h) (prog_noDrop o inp hd)
+
+/-- the programs never access an element object that does not exist (any more) -/
+theorem no_out_of_bounds (o : Op) (inp : Input) (h : wf o inp = true) : (exec o inp).oob = [] :=
+  (safe_quiet (prog_safe o inp h)).2
+
+/-! ## non-vacuity: well-formed, non-trivial inputs exist and the predicates are not trivially true -/
+
+example : wf .join3 ⟨[(.rv, [1, 2]), (.lv, [11]), (.rv, [21, 22])], []⟩ = true := by decide
+example : wf .foldBreak ⟨[(.cr, [1, 2, 3]), (.rv, [11])], [1]⟩ = true := by decide
+example : wf .getOrInsert ⟨[(.io, [1, 2])], [2]⟩ = true := by decide
+
+example : (outcome .join3 ⟨[(.rv, [1, 2]), (.lv, [11]), (.rv, [21, 22])], []⟩).res
+    = [(1, true), (2, true), (11, true), (21, true), (22, true)] := by decide
+example : (outcome .join3 ⟨[(.rv, [1, 2]), (.lv, [11]), (.rv, [21, 22])], []⟩).cp = [11] := by decide
+example : (outcome .join3 ⟨[(.rv, [1, 2]), (.lv, [11]), (.rv, [21, 22])], []⟩).mv = [21, 22] := by decide
+example : (outcome .algMap ⟨[(.rv, [1, 2, 3])], []⟩).outs = [[(1, false), (2, false), (3, false)]] := by decide
+
+example : keeps .join3 ⟨[(.rv, [1, 2]), (.lv, [11]), (.rv, [21, 22])], []⟩ 2 = true := by decide
+example : keeps .recPermute ⟨[(.rv, [1, 2, 3])], [2, 0, 1]⟩ 0 = true := by decide
+example : (outcome .recPermute ⟨[(.rv, [1, 2, 3])], [2, 0, 1]⟩).res = [(3, true), (1, true), (2, true)] := by decide
+/-- `map_optional` is a filter: it is not among the keepers -/
+example : keeps .mapOptional ⟨[(.rv, [1, 2])], [1, 0]⟩ 0 = false := by decide
+
+/-! ## refuted: the three repaired defects, each against the operation as it is now
+
+* `either::bind` before fix f5622af copied the failure of an rvalue either (`oldEithBindFailure`);
+* the `options::flag` constructor before fix 986d19b compared its arguments after moving from them (`oldOptsFlag`);
+* `optional::to_container` before fix 9030486 moved the element out of an lvalue optional (`oldOptToContainer`).
+-/
+
+/-- old `either::bind`, rvalue either holding a failure: the failure is copied -/
+example : ¬ (runOn ⟨[(.rv, [1])], [0, 0]⟩ oldEithBindFailure).NoCopyOfRvalue := by
+  intro h
+  exact h 0 (by decide) 1 (by decide) (by decide)
+/-- now it is moved: nothing is copied, the source is moved-from -/
+example : (outcome .eithBind ⟨[(.rv, [1])], [0, 0]⟩).cp = [] ∧ (outcome .eithBind ⟨[(.rv, [1])], [0, 0]⟩).outs = [[(1, false)]] := by
+  decide
+
+/-- old `options::flag` constructor: reads both arguments after moving from them -/
+example : ¬ (runOn ⟨[(.rv, [1]), (.rv, [11])], []⟩ oldOptsFlag).NoReadAfterMove := by
+  intro h
+  exact absurd (show (runOn _ _).ram = [] from h) (by decide)
+example : (runOn ⟨[(.rv, [1]), (.rv, [11])], []⟩ oldOptsFlag).ram = [1, 11] := by decide
+/-- now the stored values are compared -/
+example : (outcome .optsFlag ⟨[(.rv, [1]), (.rv, [11])], []⟩).ram = [] := by decide
+
+/-- old `optional::to_container`, lvalue optional: the argument is changed -/
+example : ¬ (runOn ⟨[(.lv, [1])], []⟩ (oldOptToContainer 1)).LvalueUnchanged := by
+  intro h
+  exact absurd (h 0 .lv (by decide) (Or.inl rfl)) (by decide)
+/-- now the element is copied and the argument keeps it -/
+example : (outcome .optToContainer ⟨[(.lv, [1])], []⟩).outs = [[(1, true)]] ∧ (outcome .optToContainer ⟨[(.lv, [1])], []⟩).cp = [1] := by
+  decide
+
+/-! ## refuted: what else the conservation predicates exclude -/
+
+/-- moving the same element twice is a read after move and a second move out of the argument -/
+example : ¬ (runOn ⟨[(.rv, [1])], []⟩ [.xfer 0 0 .move .res, .xfer 0 0 .move .res]).MovedAtMostOnce := by
+  intro h
+  exact absurd (h 1 (by decide)) (by decide)
+
+/-- a copy of an rvalue element shows up as a duplicate: two live objects carry it -/
+example : (runOn ⟨[(.rv, [1])], []⟩ [.xfer 0 0 .copy .res]).liveCount 1 = 2 := by decide
+
+/-- a filter that drops an element loses it: `Conserved` then accounts for it in `lost` -/
+example : (runOn ⟨[(.rv, [1, 2])], []⟩ [.xfer 0 0 .move .res, .xfer 0 1 .move .drop]).lost = [2] := by decide
+
+end Fcppt.C05
